@@ -454,8 +454,7 @@ func (w *_nodeRepr) Length() int64 {
 	case schema.UnionRepresentation_Stringprefix:
 		return -1
 	case schema.UnionRepresentation_Kinded:
-		w = w.asKinded(stg, w.Kind())
-		return (*_node)(w).Length()
+		return w.asKinded(stg, w.Kind()).Length()
 	default:
 		return (*_node)(w).Length()
 	}
